@@ -290,6 +290,10 @@ def run_basicauth(run):
                 raise vlib.Inconclusive("BasicAuth %s: expected violation=%s, got\n%s" % (v, expect, res.out[-2000:]))
             if not expect:
                 run.add_model(res)
+        proved, nobl, pout = vlib.tlapm(wd, "BasicAuthProof", timeout=900)
+        if not proved:
+            raise vlib.Inconclusive("TLAPS does not prove BasicAuthProof (Spec => []YesMeansPassword for the complete check, unbounded calls):\n" + pout)
+        info["tlaps"] = {"module": "BasicAuthProof", "theorem": "Spec => []YesMeansPassword (Verification = full, unbounded calls)", "obligations_proved": nobl}
         trace = os.path.join(wd, "trace.ndjson")
         vlib.run_harness(["basicauth", "-seed", str(run.seed), "-out", trace], timeout=1200)
         lines = vlib.read_ndjson(trace)
